@@ -8,6 +8,10 @@ def judge_case(case):
         return sweep.judge_c02(sweep.rec_from_case(case))[0]
     if case["kind"] == "spelled":
         return sweep.judge_spelled_c02(sweep.eval_spelled(sweep.spelled_job_from_case(case)))[0]
+    if case["kind"] == "envx":
+        from mc.explore import envx_run
+
+        return envx_run.replay("C02", case)
     raise ValueError(case["kind"])
 
 
@@ -41,3 +45,6 @@ def run(ctx):
         m += 1
     ctx.sub("spelling_layer", states=m, transitions=12 * m, evaluations=12 * m, traces=12 * m, distinct_nontrivial=m, undecidable=und, exhaustive=True)
     ctx.sample({"subcheck": "spelled", "text": repr(jobs[len(jobs) // 3][0]), "bg": repr(jobs[len(jobs) // 3][1])})
+    from mc.explore import envx_run
+
+    envx_run.run(ctx, "C02")
